@@ -627,6 +627,28 @@ def _set_pdeathsig():
         _LIBC.prctl(1, signal.SIGKILL)   # PR_SET_PDEATHSIG
 
 
+def _worker_init():
+    """pool workers: default signal dispositions (the main process installs Python-level
+    handlers; inherited by a worker they can keep Pool.terminate() from ending it) and death
+    with the parent"""
+    for sig in (signal.SIGTERM, signal.SIGINT, signal.SIGHUP):
+        signal.signal(sig, signal.SIG_DFL)
+    _set_pdeathsig()
+
+
+def _pool_map(nproc, fn, args, timeout):
+    """Pool.map with a deadline (a lost worker must not hang the check)"""
+    ctx = multiprocessing.get_context('fork')
+    pool = ctx.Pool(nproc, initializer=_worker_init)
+    try:
+        out = pool.map_async(fn, args, chunksize=1).get(timeout)
+        pool.close()
+        pool.join()
+        return out
+    finally:
+        pool.terminate()
+
+
 RESTART_KB = 16384    # a child whose peak RSS grew by more than this is replaced (clean measurements)
 
 
@@ -754,7 +776,7 @@ def run_cases(cases, progress=None):
     chunks = [cases[k::nchunks] for k in range(nchunks)]
     ctx = multiprocessing.get_context('fork')
     results = {}
-    pool = ctx.Pool(NPROC, initializer=_set_pdeathsig)
+    pool = ctx.Pool(NPROC, initializer=_worker_init)
     try:
         done = 0
         mark = 0
@@ -855,13 +877,11 @@ def run(ctx):
         min(nominal.values()), max(nominal.values())))
 
     # ---- 1. TLC enumerates the fault space of every base image --------------------------------
-    mp = multiprocessing.get_context('fork')
     jobs = [(b, 1, None, ctx.seed) for b in bases]
     npairs = 300 if ctx.tier == 'thorough' else 0
     if npairs:
         jobs += [(b, 2, npairs, ctx.seed + 1) for b in bases]
-    with mp.Pool(8) as pool:
-        enum = pool.map(_enum_star, jobs)
+    enum = _pool_map(8, _enum_star, jobs, 900)
     tlc_states = 0
     tlc_trans = 0
     spaces = {}
@@ -891,8 +911,7 @@ def run(ctx):
         selected[b.name] = sts + pairs.get(b.name, [])
 
     # ---- 3. apply, dedupe, run the real code ---------------------------------------------------------
-    with mp.Pool(NPROC) as pool:
-        planned = pool.map(_plan_star, [(b.name, selected[b.name]) for b in bases])
+    planned = _pool_map(NPROC, _plan_star, [(b.name, selected[b.name]) for b in bases], 600)
     cases = []
     attrib = {}
     for (name, by_sha, att) in planned:
@@ -927,8 +946,7 @@ def run(ctx):
         nshard = max(1, (len(its) + 2999) // 3000)
         for k in range(nshard):
             jjobs.append(('Judge_Hostile', its[k::nshard], 3600, {'HostileInv': inv_module(b)}))
-    with mp.Pool(8) as pool:
-        verdicts = pool.map(judge._judge_star, jjobs)   # pylint: disable=protected-access
+    verdicts = _pool_map(8, judge._judge_star, jjobs, 1800)   # pylint: disable=protected-access
     fails = {}
     for (f, _) in verdicts:
         fails.update(f)
@@ -1092,5 +1110,7 @@ def _own_group():
 
 
 if __name__ == '__main__':
+    import faulthandler
+    faulthandler.dump_traceback_later(3000, exit=True)    # a hang becomes a visible failure
     _own_group()
     sys.exit(checklib.main('C15', 'fault_enumeration', run))
